@@ -547,6 +547,10 @@ func (topicsMapper) Create(topic *types.Topic, owner types.Uid, private interfac
 			ModeGiven: types.ModeCFull,
 			ModeWant:  topic.GetAccess(owner),
 			Private:   private})
+		if err != nil {
+			// A group topic must not exist without its owner: take the record back.
+			adp.TopicDelete(topic.Id, topic.UseBt, true)
+		}
 	}
 
 	return err
